@@ -321,6 +321,12 @@ class Walker:
                 return a + b
             if op in ("Sub", "SubUnchecked"):
                 return a - b
+            if op == "Mul":
+                return a * b
+            if op == "Div" and b != 0 and a >= 0 and b > 0:
+                return a // b
+            if op == "Rem" and b != 0 and a >= 0 and b > 0:
+                return a % b
         return None
 
     def assign(self, env, dst_place, rv):
